@@ -456,6 +456,10 @@ func CheckMain(id, tier string) int {
 				handle(r)
 			}
 			_ = cmd.Wait()
+			// a worker that died could not remove its scratch directory
+			if cmd.Process != nil {
+				_ = os.RemoveAll(fmt.Sprintf("/dev/shm/rigomc-%d", cmd.Process.Pid))
+			}
 			if !done && cur >= 0 {
 				mu.Lock()
 				died = append(died, cur)
